@@ -73,3 +73,22 @@ add("C15", "metamorphic oracle (binned load == block sum of the b-times larger o
     "Metamorphic relation is exact only for identity orientation, molecules on the binned grid and orders 0/1, which is "
     "what the workload generates.",
     "DESIGN.md section 4 C15")
+
+add("C14", "exact-paste, metamorphic (permutation/clipping/projection) and analytic ground-truth oracles on generated poses",
+    "Five workload modes: exact paste (identity, template voxels on tomogram voxels, odd/even/non-cubic templates, orders "
+    "0/1/3: block == template, zero elsewhere, mass, loader round trip), additivity (molecule/component permutations and "
+    "splits), clipping (simulate(S,pos) == simulate(S+2p,pos+p)[p:-p] for poses straddling/outside every face, no error), "
+    "general pose (analytic Gaussian-mixture particle: centre of mass within 0.05 px, values within 3 %/30 % of peak for "
+    "order 3/1, loader returns the template), projection (simulate_2d == z-sum of simulate).",
+    "Non-grid poses use templates that vanish near their box faces, as the property's quantifier stipulates. Exact-paste "
+    "cases use scales for which pos/scale is an exact (half-)integer in float32.",
+    "DESIGN.md section 4 C14")
+
+add("C17", "reference-model oracle per shell + icontract K9/K6, loader-level half-map consistency",
+    "fourier_shell_correlation is compared shell by shell with an independent float64 normalised cross-spectrum "
+    "(shell = floor(|f|/dfreq)) on related/unrelated/identical/analytic pairs of any 3-D shape and shell width; range, "
+    "symmetry, gain invariance and self-FSC = 1 are asserted; loader/batch/group FSC columns must equal the reference FSC "
+    "of the returned half-maps times the mask, half-maps must be the zero-normalised split averages, frames must be "
+    "reproducible per seed; FSCAlignment.score is 1 on the template, bounded and symmetric.",
+    "Shells with a bin within 1e-6 of a shell boundary, or holding < 1e-8 of either input's power, are undecided.",
+    "DESIGN.md section 4 C17")
